@@ -1526,7 +1526,7 @@ def one_history(ctx, r, nops, out):
 
 def run(ctx):
     r = ctx.rng
-    nhist = ctx.scale(800, 20000)
+    nhist = ctx.scale(800, 12000)
     ctx.rule = ('random histories (<= 30 ops) of public CQM mutators: add_variable, set_objective (model / iterable), add_constraint '
                 '(model, comparison, iterable; copy and move; hard and soft, both penalties), add_discrete (3 forms), remove/fix/flip/'
                 'change_vartype/relabel variables, fix_variables in place and copying, spin_to_binary, remove_constraint (cascade), '
